@@ -5,7 +5,7 @@
 #![allow(dead_code)]
 use anda_object_store::{EncryptedStore, EncryptedStoreBuilder, FaultHandle, FaultStore, MetaStore, MetaStoreBuilder};
 use bytes::Bytes;
-use futures::TryStreamExt;
+use futures::{StreamExt, TryStreamExt};
 use object_store::{
     CopyMode, CopyOptions, Error, GetOptions, GetRange, ObjectMeta, ObjectStore, ObjectStoreExt, PutMode, PutOptions, PutPayload,
     RenameOptions, RenameTargetMode, UpdateVersion, memory::InMemory, path::Path,
@@ -269,6 +269,77 @@ impl Sut {
                     Err(e) => err_kind(e),
                 }
             }
+            [op @ ("mabort" | "mdrop"), k, sizes, seed] => {
+                // a multipart upload that is aborted / dropped without `complete`
+                let p = key_path(k)?;
+                let sizes: Vec<usize> = if *sizes == "-" { vec![] } else { sizes.split(',').map(|s| s.parse().ok()).collect::<Option<_>>()? };
+                let all = gen_bytes(seed.parse().ok()?, sizes.iter().sum());
+                let res: Result<(), Error> = async {
+                    let mut up = store.put_multipart(&p).await?;
+                    let mut off = 0;
+                    for s in &sizes {
+                        up.put_part(PutPayload::from(all[off..off + s].to_vec())).await?;
+                        off += s;
+                    }
+                    if *op == "mabort" {
+                        up.abort().await?;
+                    }
+                    drop(up);
+                    Ok(())
+                }
+                .await;
+                match res {
+                    Ok(()) => "ok".into(),
+                    Err(e) => err_kind(&e),
+                }
+            }
+            ["dels", ks] => {
+                // one delete_stream over several locations; answers in input order
+                let mut paths = vec![];
+                if *ks != "-" {
+                    for k in ks.split(',') {
+                        paths.push(key_path(k)?);
+                    }
+                }
+                let n = paths.len();
+                let items: Vec<Result<Path, Error>> = store.delete_stream(futures::stream::iter(paths.into_iter().map(Ok)).boxed()).collect().await;
+                let mut parts: Vec<String> = items.iter().map(|r| match r { Ok(_) => "ok".to_string(), Err(e) => err_kind(e) }).collect();
+                if parts.len() != n {
+                    parts.push(format!("yielded-{}-of-{n}", parts.len()));
+                }
+                format!("ok [{}]", parts.join(","))
+            }
+            ["put-x", k, size, seed] => {
+                let data = gen_bytes(seed.parse().ok()?, size.parse().ok()?);
+                match store.put(&key_path(k)?, PutPayload::from(data)).await {
+                    Ok(r) => format!("ok tok={}{}", self.ord(r.e_tag.as_deref()), if r.version.is_some() { " version=some" } else { "" }),
+                    Err(e) => err_kind(&e),
+                }
+            }
+            ["head", k] => match store.head(&key_path(k)?).await {
+                Ok(m) => format!("ok {}", self.show_meta(&m, &mut out.metas)),
+                Err(e) => err_kind(&e),
+            },
+            ["getr", k, s, e] => match store.get_range(&key_path(k)?, s.parse().ok()?..e.parse().ok()?).await {
+                Ok(b) => format!("ok data={}", show_data(&b)),
+                Err(e) => err_kind(&e),
+            },
+            [op @ ("copy-x" | "copy-ine"), a, b] => {
+                let (a, b) = (key_path(a)?, key_path(b)?);
+                let r = if *op == "copy-x" { store.copy(&a, &b).await } else { store.copy_if_not_exists(&a, &b).await };
+                match r {
+                    Ok(()) => "ok".into(),
+                    Err(e) => err_kind(&e),
+                }
+            }
+            [op @ ("ren-x" | "ren-ine"), a, b] => {
+                let (a, b) = (key_path(a)?, key_path(b)?);
+                let r = if *op == "ren-x" { store.rename(&a, &b).await } else { store.rename_if_not_exists(&a, &b).await };
+                match r {
+                    Ok(()) => "ok".into(),
+                    Err(e) => err_kind(&e),
+                }
+            }
             ["get", k, opts @ ..] => {
                 let p = key_path(k)?;
                 let mut o = GetOptions::default();
@@ -381,7 +452,26 @@ impl Sut {
 }
 
 pub fn is_mutating(op: &str) -> bool {
-    matches!(op.split(' ').next(), Some("put" | "mput" | "del" | "copy" | "ren" | "legacy" | "crash"))
+    matches!(
+        op.split(' ').next(),
+        Some("put" | "mput" | "del" | "copy" | "ren" | "legacy" | "crash" | "mabort" | "mdrop" | "dels" | "put-x" | "copy-x" | "copy-ine" | "ren-x" | "ren-ine")
+    )
+}
+
+/// The `*_opts` spelling of an `ObjectStoreExt` convenience op (`copy-ine a b` = `copy a b cr`, …):
+/// the bookkeeping and the model see one alphabet, the implementation is entered through the named method.
+pub fn canonical_op(op: &str) -> String {
+    let w: Vec<&str> = op.split(' ').filter(|s| !s.is_empty()).collect();
+    match w.as_slice() {
+        ["put-x", k, size, seed] => format!("put {k} ow {size} {seed}"),
+        ["head", k] => format!("get {k} head"),
+        ["getr", k, s, e] => format!("get {k} r=b:{s}:{e}"),
+        ["copy-x", a, b] => format!("copy {a} {b} ow"),
+        ["copy-ine", a, b] => format!("copy {a} {b} cr"),
+        ["ren-x", a, b] => format!("ren {a} {b} ow"),
+        ["ren-ine", a, b] => format!("ren {a} {b} cr"),
+        _ => op.to_string(),
+    }
 }
 
 /// Replaces every raw time `@<n>` of a transcript by its rank among the distinct times of that
